@@ -281,7 +281,7 @@ theorem C12_plain_seconds_idempotent_partial (hA : asciiDigitsOK = true) (disc t
     (hg : getDistance 8 disc = .ok (some d))
     (hd : 0 < d) (h800 : d < 800) (hr : timedCore disc t = .time 0 0 c) :
     c < 10000 ∧ formatTime 0 0 c = fmt2 c ∧ timedCore disc (fmt2 c) = .time 0 0 c := by
-  obtain ⟨h0, m0, sn0, dc0, hdec⟩ := timedCore_decided disc t d hg 0 0 c hr
+  obtain ⟨h0, m0, sn0, dc0, hdec⟩ := timedCore_decided disc t (some d) hg 0 0 c hr
   have hlt := timedDecide_plain_lt disc d hd h0 m0 sn0 dc0 c hdec
   obtain ⟨hpos, h11, h10, hslow⟩ := C12_timed_speed_window disc d hd h0 m0 sn0 dc0 0 0 c hdec
   simp only [Nat.mul_zero, Nat.add_zero, Nat.zero_mul, Nat.zero_add] at hpos h11 h10 hslow
@@ -369,7 +369,7 @@ theorem timedDecide_again (disc : Str) (d m c n' sd' k' : Nat) (hd : 0 < d) (hm 
 /-- an event shorter than 800 m has no result with an hours field (it would be slower than 0.5 m/s) -/
 theorem C12_no_hours_below_800 (disc t : Str) (d h m c : Nat) (hg : getDistance 8 disc = .ok (some d)) (hd : 0 < d)
     (h800 : d < 800) (hr : timedCore disc t = .time h m c) : h = 0 := by
-  obtain ⟨h0, m0, sn0, dc0, hdec⟩ := timedCore_decided disc t d hg h m c hr
+  obtain ⟨h0, m0, sn0, dc0, hdec⟩ := timedCore_decided disc t (some d) hg h m c hr
   obtain ⟨_, _, _, hslow⟩ := C12_timed_speed_window disc d hd h0 m0 sn0 dc0 h m c hdec
   omega
 
@@ -384,7 +384,7 @@ theorem C12_mss_idempotent_partial (hA : asciiDigitsOK = true) (disc t : Str) (d
     (hg : getDistance 8 disc = .ok (some d)) (h200 : 200 < d) (hm : 0 < m) (hr : timedCore disc t = .time 0 m c) :
     c < 6000 ∧ timedCore disc (formatTime 0 m c) = .time 0 m c := by
   have hd : 0 < d := by omega
-  obtain ⟨h0, m0, sn0, dc0, hdec⟩ := timedCore_decided disc t d hg 0 m c hr
+  obtain ⟨h0, m0, sn0, dc0, hdec⟩ := timedCore_decided disc t (some d) hg 0 m c hr
   obtain ⟨_, h11, h10, hslow⟩ := C12_timed_speed_window disc d hd h0 m0 sn0 dc0 0 m c hdec
   have hc : c < 6000 := (C12_timed_fields_below_60 disc (some d) h0 m0 sn0 (10 ^ dc0) dc0 0 m c hdec).1 (Or.inr hm)
   refine ⟨hc, ?_⟩
@@ -499,7 +499,7 @@ theorem C12_hmmss_idempotent_partial (hA : asciiDigitsOK = true) (disc t : Str) 
     (hno : strIn disc ["800", "1500", "3000"] = false) (hr : timedCore disc t = .time h m c) :
     m < 60 ∧ c < 6000 ∧ timedCore disc (formatTime h m c) = .time h m c := by
   have hd : 0 < d := by omega
-  obtain ⟨h0, m0, sn0, dc0, hdec⟩ := timedCore_decided disc t d hg h m c hr
+  obtain ⟨h0, m0, sn0, dc0, hdec⟩ := timedCore_decided disc t (some d) hg h m c hr
   obtain ⟨_, h11, h10, hslow⟩ := C12_timed_speed_window disc d hd h0 m0 sn0 dc0 h m c hdec
   obtain ⟨hc', hm'⟩ := C12_timed_fields_below_60 disc (some d) h0 m0 sn0 (10 ^ dc0) dc0 h m c hdec
   have hc : c < 6000 := hc' (Or.inl hh)
@@ -560,6 +560,159 @@ example : (match getDistance 8 "MAR".toList with | .ok (some 42195) => true | _ 
 /-- and the excluded case: `3000` in 1:02:03.00 is returned as `1:02:03`, which is refused -/
 example : timedCore "3000".toList "1:02:03.00".toList = .time 1 2 300 ∧ formatTime 1 2 300 = "1:02:03".toList ∧
     timedCore "3000".toList "1:02:03".toList = .refused := by decide +kernel
+
+/-! ## idempotence, partial: events without a distance -/
+
+/-- what an accepted time of an event without a distance satisfies (no speed window there) -/
+theorem timedDecide_nodist (disc : Str) (h0 m0 sn0 sd0 dc0 h m c : Nat)
+    (hr : timedDecide disc none h0 m0 sn0 sd0 dc0 = .time h m c) :
+    ((h > 0 ∨ m > 0) → c < 6000) ∧ (h > 0 → m < 60) ∧ (strEq (upper disc) "XC" = true → h > 0 ∨ m > 0) := by
+  obtain ⟨a, b⟩ := C12_timed_fields_below_60 disc none h0 m0 sn0 sd0 dc0 h m c hr
+  refine ⟨a, b, fun hx => ?_⟩
+  unfold timedDecide at hr
+  split at hr
+  · cases hr
+  · have hne : (none == some 400) = false := rfl
+    simp only [hne, Bool.false_and, Bool.false_eq_true, if_false] at hr
+    unfold timedGuards at hr
+    split at hr
+    · cases hr
+    · split at hr
+      · cases hr
+      · split at hr
+        · cases hr
+        · split at hr
+          · cases hr
+          · next hxc =>
+            split at hr
+            · cases hr
+            · next hlast =>
+              injection hr with e1 e2 e3
+              subst e1; subst e2
+              simp only [Bool.false_and, Bool.not_false, Bool.true_and, hx, Bool.and_eq_true, beq_iff_eq, not_and] at hlast
+              omega
+
+/-- the decision on fields that denote the same time again, for an event without a distance -/
+theorem timedDecide_again_nodist (disc : Str) (h m c n' sd' k' : Nat) (hhm : 0 < h ∨ 0 < m) (hm : 0 < h → m < 60) (hc : c < 6000)
+    (hsd : (sd' = 1 ∧ k' = 0) ∨ (sd' = 10 ∧ k' = 1) ∨ (sd' = 100 ∧ k' = 2)) (hn : n' * 100 = c * sd') :
+    timedDecide disc none h m n' sd' k' = .time h m c := by
+  have hfirst : (m == 0 && decide (n' ≥ 100 * sd')) = false := by
+    have : ¬ (n' ≥ 100 * sd') := by
+      rcases hsd with ⟨rfl, _⟩ | ⟨rfl, _⟩ | ⟨rfl, _⟩ <;> omega
+    simp [this]
+  have hne : (none == some 400) = false := rfl
+  unfold timedDecide
+  simp only [hfirst, Bool.false_eq_true, if_false, hne, Bool.false_and]
+  unfold timedGuards speedBad
+  have hq : n' * 100 / sd' = c := by
+    rcases hsd with ⟨rfl, _⟩ | ⟨rfl, _⟩ | ⟨rfl, _⟩ <;> omega
+  have hk : ¬ (k' > 2) := by rcases hsd with ⟨_, rfl⟩ | ⟨_, rfl⟩ | ⟨_, rfl⟩ <;> omega
+  have h60 : ¬ (n' ≥ 60 * sd') := by rcases hsd with ⟨rfl, _⟩ | ⟨rfl, _⟩ | ⟨rfl, _⟩ <;> omega
+  simp only [Bool.false_and, Bool.false_eq_true, if_false, hq, Bool.not_false, Bool.true_and]
+  rw [if_neg (by simp; intro _; omega), if_neg (by simp; intro hh'; have := hm hh'; omega), if_neg (by simpa using hk)]
+  rw [if_neg (by simp; intro _ hm0 hh0; omega)]
+
+/-- **Events without a distance** (`XC`): an `m:ss` result is a fixed point of the timed branch — no speed window and none
+    of the distance-dependent re-readings there. -/
+theorem C12_mss_idempotent_nodist (hA : asciiDigitsOK = true) (disc t : Str) (m c : Nat)
+    (hg : getDistance 8 disc = .ok none) (hm : 0 < m) (hr : timedCore disc t = .time 0 m c) :
+    c < 6000 ∧ timedCore disc (formatTime 0 m c) = .time 0 m c := by
+  obtain ⟨h0, m0, sn0, dc0, hdec⟩ := timedCore_decided disc t none hg 0 m c hr
+  obtain ⟨hc', _, _⟩ := timedDecide_nodist disc h0 m0 sn0 (10 ^ dc0) dc0 0 m c hdec
+  have hc : c < 6000 := hc' (Or.inr hm)
+  refine ⟨hc, ?_⟩
+  have ha : c / 1000 < 10 := by omega
+  have hb : c / 100 % 10 < 10 := by omega
+  have he : c / 10 % 10 < 10 := by omega
+  have hf : c % 10 < 10 := by omega
+  have hpre : 2 ≤ (natStr m ++ [':']).length := by
+    have := natStrAux_ne_nil (m + 1) m [] (Or.inl (Nat.succ_pos _))
+    have : (natStr m).length ≠ 0 := fun e => this (List.eq_nil_of_length_eq_zero e)
+    simp only [List.length_append, List.length_cons, List.length_nil]; omega
+  have hfmt : formatTime 0 m c = stripTime ((natStr m ++ [':']) ++
+      [digitChar0 (c / 1000), digitChar0 (c / 100 % 10), '.', digitChar0 (c / 10 % 10), digitChar0 (c % 10)]) := by
+    unfold formatTime
+    rw [if_neg (by omega), if_pos hm, fmt52_lt6000 c hc]
+  rw [hfmt, stripTime_mss _ _ _ _ _ hpre (digitChar0_ne_dot' _ he) (digitChar0_ne_dot' _ hf)]
+  have hcA := digitChar0_ne_colon _ ha
+  have hcB := digitChar0_ne_colon _ hb
+  have hcE := digitChar0_ne_colon _ he
+  have hcF := digitChar0_ne_colon _ hf
+  have hdot : ('.' : Char) ≠ ':' := by decide
+  by_cases hF : digitChar0 (c % 10) = '0'
+  · have f0 : c % 10 = 0 := (digitChar0_eq_zero _ hf).1 hF
+    rw [if_neg (by simpa using hF)]
+    by_cases hE : digitChar0 (c / 10 % 10) = '0'
+    · have e0 : c / 10 % 10 = 0 := (digitChar0_eq_zero _ he).1 hE
+      rw [if_neg (by simpa using hE), List.append_assoc, List.singleton_append]
+      rw [timedCore_mss_nodist hA disc m hm _ hg
+        (by intro ch hch; simp only [List.mem_cons, List.mem_nil_iff, or_false] at hch; rcases hch with rfl | rfl <;> assumption)
+        _ (floatOf_ss hA _ _ ha hb)]
+      exact timedDecide_again_nodist disc 0 m c _ 1 0 (Or.inr hm) (fun h => absurd h (by omega)) hc (Or.inl ⟨rfl, rfl⟩) (by omega)
+    · rw [if_pos (by simpa using hE), List.append_assoc, List.singleton_append]
+      rw [timedCore_mss_nodist hA disc m hm _ hg
+        (by intro ch hch; simp only [List.mem_cons, List.mem_nil_iff, or_false] at hch; rcases hch with rfl | rfl | rfl | rfl <;> assumption)
+        _ (floatOf_ss_c hA _ _ _ ha hb he)]
+      exact timedDecide_again_nodist disc 0 m c _ 10 1 (Or.inr hm) (fun h => absurd h (by omega)) hc (Or.inr (Or.inl ⟨rfl, rfl⟩)) (by omega)
+  · rw [if_pos (by simpa using hF), List.append_assoc, List.singleton_append]
+    rw [timedCore_mss_nodist hA disc m hm _ hg
+      (by intro ch hch; simp only [List.mem_cons, List.mem_nil_iff, or_false] at hch; rcases hch with rfl | rfl | rfl | rfl | rfl <;> assumption)
+      _ (floatOf_ss_cc hA _ _ _ _ ha hb he hf)]
+    exact timedDecide_again_nodist disc 0 m c _ 100 2 (Or.inr hm) (fun h => absurd h (by omega)) hc (Or.inr (Or.inr ⟨rfl, rfl⟩)) (by omega)
+
+/-- … and so is an `h:mm:ss` result (codes other than `800`, `1500`, `3000`, which have a distance anyway) -/
+theorem C12_hmmss_idempotent_nodist (hA : asciiDigitsOK = true) (disc t : Str) (h m c : Nat)
+    (hg : getDistance 8 disc = .ok none) (hh : 0 < h)
+    (hno : strIn disc ["800", "1500", "3000"] = false) (hr : timedCore disc t = .time h m c) :
+    m < 60 ∧ c < 6000 ∧ timedCore disc (formatTime h m c) = .time h m c := by
+  obtain ⟨h0, m0, sn0, dc0, hdec⟩ := timedCore_decided disc t none hg h m c hr
+  obtain ⟨hc', hm', _⟩ := timedDecide_nodist disc h0 m0 sn0 (10 ^ dc0) dc0 h m c hdec
+  have hc : c < 6000 := hc' (Or.inl hh)
+  have hm : m < 60 := hm' hh
+  refine ⟨hm, hc, ?_⟩
+  have ha : c / 1000 < 10 := by omega
+  have hb : c / 100 % 10 < 10 := by omega
+  have he : c / 10 % 10 < 10 := by omega
+  have hf : c % 10 < 10 := by omega
+  have hpre : 2 ≤ (natStr h ++ [':'] ++ twoDigits m ++ [':']).length := by
+    simp only [List.length_append, List.length_cons, List.length_nil, twoDigits]; omega
+  have hshape : ∀ sec : Str, (natStr h ++ [':'] ++ twoDigits m ++ [':']) ++ sec = natStr h ++ ':' :: (twoDigits m ++ ':' :: sec) := by
+    intro sec; simp [List.append_assoc]
+  have hfmt : formatTime h m c = stripTime ((natStr h ++ [':'] ++ twoDigits m ++ [':']) ++
+      [digitChar0 (c / 1000), digitChar0 (c / 100 % 10), '.', digitChar0 (c / 10 % 10), digitChar0 (c % 10)]) := by
+    unfold formatTime
+    rw [if_pos hh, fmt52_lt6000 c hc]
+  rw [hfmt, stripTime_mss _ _ _ _ _ hpre (digitChar0_ne_dot' _ he) (digitChar0_ne_dot' _ hf)]
+  have hcA := digitChar0_ne_colon _ ha
+  have hcB := digitChar0_ne_colon _ hb
+  have hcE := digitChar0_ne_colon _ he
+  have hcF := digitChar0_ne_colon _ hf
+  have hdot : ('.' : Char) ≠ ':' := by decide
+  by_cases hF : digitChar0 (c % 10) = '0'
+  · have f0 : c % 10 = 0 := (digitChar0_eq_zero _ hf).1 hF
+    rw [if_neg (by simpa using hF)]
+    by_cases hE : digitChar0 (c / 10 % 10) = '0'
+    · have e0 : c / 10 % 10 = 0 := (digitChar0_eq_zero _ he).1 hE
+      rw [if_neg (by simpa using hE), hshape]
+      rw [timedCore_hmmss_nodist hA disc h m hh hm _ hg hno
+        (by intro ch hch; simp only [List.mem_cons, List.mem_nil_iff, or_false] at hch; rcases hch with rfl | rfl <;> assumption)
+        _ (floatOf_ss hA _ _ ha hb)]
+      exact timedDecide_again_nodist disc h m c _ 1 0 (Or.inl hh) (fun _ => hm) hc (Or.inl ⟨rfl, rfl⟩) (by omega)
+    · rw [if_pos (by simpa using hE), hshape]
+      rw [timedCore_hmmss_nodist hA disc h m hh hm _ hg hno
+        (by intro ch hch; simp only [List.mem_cons, List.mem_nil_iff, or_false] at hch; rcases hch with rfl | rfl | rfl | rfl <;> assumption)
+        _ (floatOf_ss_c hA _ _ _ ha hb he)]
+      exact timedDecide_again_nodist disc h m c _ 10 1 (Or.inl hh) (fun _ => hm) hc (Or.inr (Or.inl ⟨rfl, rfl⟩)) (by omega)
+  · rw [if_pos (by simpa using hF), hshape]
+    rw [timedCore_hmmss_nodist hA disc h m hh hm _ hg hno
+      (by intro ch hch; simp only [List.mem_cons, List.mem_nil_iff, or_false] at hch; rcases hch with rfl | rfl | rfl | rfl | rfl <;> assumption)
+      _ (floatOf_ss_cc hA _ _ _ _ ha hb he hf)]
+    exact timedDecide_again_nodist disc h m c _ 100 2 (Or.inl hh) (fun _ => hm) hc (Or.inr (Or.inr ⟨rfl, rfl⟩)) (by omega)
+
+/-- non-vacuity: a cross-country run in 21:30, and in 1:02:03.5 -/
+example : (match getDistance 8 "XC".toList with | .ok none => true | _ => false) = true ∧
+    timedCore "XC".toList "21:30".toList = .time 0 21 3000 ∧ formatTime 0 21 3000 = "21:30".toList ∧
+    timedCore "XC".toList "1:02:03.5".toList = .time 1 2 350 := by decide +kernel
 
 /-- Full statement of the remaining clauses (NOT proved here). -/
 def C12_statement : Prop :=
